@@ -244,10 +244,10 @@ def gen_cases(rng, tier):
             yield {'op': 'eui', 'prefix': p, 'fam_p': 'v6net', 'addr': a, 'plen': l, 'mac': '%02x:%02x:%02x:%02x:%02x:%02x' % tuple((m >> s) & 255 for s in range(40, -1, -8)), 'fam_m': 'mac48', 'macv': m}
     yield {'op': 'eui', 'prefix': '::/64', 'fam_p': 'v6net', 'addr': 0, 'plen': 64, 'mac': '02-00-00-00-00-00-00-00', 'fam_m': 'eui64s'}
     yield {'op': 'eui', 'prefix': '%s/128' % ipaddress.IPv6Address((1 << 57) - 0xFFFE000000), 'fam_p': 'v6net', 'addr': (1 << 57) - 0xFFFE000000, 'plen': 128, 'mac': '00:00:00:00:00:00', 'fam_m': 'mac48', 'macv': 0}
-    for h in ['server01', '10.0.0.1', '::1', '2001:db8:85a3::8a2e:370:7334', 'fe80::1%eth0', 'fe80::1%a]b', 'a:b', '']:
+    for h in ['server01', '10.0.0.1', '::1', '2001:db8:85a3::8a2e:370:7334', 'fe80::1%eth0', 'fe80::1%a]b', 'fe80::1%]', 'fe80::1%eth0/64', 'a:b', '']:
         for p in [0, 80, 65535, 65536]:
             yield {'op': 'hostport', 'host': h, 'port': p, 'd': ['I', 1234]}
-    for a in [None, '', 'server01:80', 'server01', '[::1]:80', '[::1]', '2001:db8:85a3::8a2e:370:7334', '[::1]:80:90', '[::1]x', 'h:80:90', '[a]b]:1']:
+    for a in [None, '', 'server01:80', 'server01', '[::1]:80', '[::1]', '2001:db8:85a3::8a2e:370:7334', '[::1]:80:90', '[::1]x', 'h:80:90', '[a]b]:1', '[a]b]', '[a]:1]:2', '[a', 'a]:1']:
         for d in (['N', 0], ['I', 1234]):
             yield {'op': 'parse', 'addr': a, 'd': d}
     for _ in range(2500 * k): yield case_eui(rng)
@@ -427,7 +427,8 @@ def host_family(h):
         if a.version == 4: return 'ipv4'
         sc = a.scope_id
         if sc is None: return 'ipv6'
-        return 'ipv6scope' if 1 <= len(sc) <= 15 else None
+        # a scope id is 1..15 characters and contains no '/' (what is_valid_ipv6 accepts since f40316e)
+        return 'ipv6scope' if 1 <= len(sc) <= 15 and '/' not in sc else None
     except ValueError:
         pass
     if HOSTNAME.match(h): return 'name'
@@ -503,9 +504,7 @@ def _inet_aton_ok(s):
     except OSError: return False
 
 def zone(c):
-    # known finding H1: an IPv6 literal whose scope id contains ']' is bracketed by escape_ipv6 and cannot be parsed back
-    if c.get('op') == 'hostport' and ']' in c.get('host', ''):
-        return 'H1'
+    # no open finding (H1 — scope id containing ']' — is repaired by 03fda28 and replayed as a `fixed:` regression)
     return None
 
 def classify(c, io):
@@ -521,7 +520,7 @@ def search(rng, budget):
 
 LEVEL_TEXT = ('Theorems for all 48-bit MACs and all prefixes: the value get_ipv6_addr_by_EUI64 returns (network address + modified EUI-64 when the low 64 '
               'bits of the network address are clear; arithmetic + otherwise), the MAC round trip through get_mac_addr_by_ipv6, the exception clause for '
-              'oslo\'s guards/handlers; exact characterisation of the hosts for which parse_host_port(escape_ipv6(h) + ":" + port) and the default-port '
+              'oslo\'s guards/handlers; exact characterisation (iff) of the hosts for which parse_host_port(escape_ipv6(h) + ":" + port) and the default-port '
               'form round-trip, for every integer port; params() last-wins / all-values over any list of pairs; urlsplit post-processing is the '
               'identity under the stdlib post-condition. The guards, except clauses, combine expression, masks/shifts, parse_host_port and the '
               'urlsplit post-processing are regenerated from the AST on every run (py2gal + extensions) and proved equal to the hand model.')
